@@ -153,6 +153,10 @@ func main() {
 		stateReport(dir, fset, pkgs)
 		return
 	}
+	if len(os.Args) > 2 && os.Args[2] == "geom" {
+		geomReport(fset, pkgs)
+		return
+	}
 	if len(os.Args) > 2 && os.Args[2] == "axis" {
 		axisReport(fset, pkgs)
 		return
